@@ -86,12 +86,13 @@ Proof. exact reachable_queue_bound. Qed.
 Print Assumptions C13_reachable_QOK.
 
 (* the generic form: any predicate on sessions that holds for a new session and is kept by the per-session
-   operations, by emission and by Push holds for every slot after every step *)
+   operations, by emission, by Push and by a change of the owning node holds for every slot after every step *)
 Theorem C13_step_sess_inv : forall P : sess -> Prop,
   (forall lid rid node, P (empty_sess lid rid node)) ->
   (forall e o names c r, run_categories e o names c = Some r -> P (c_s c) -> P (c_s (fst r))) ->
   (forall extra d s rs, P s -> P (set_urrs (fst (emit extra d (s_urrs s) rs)) s)) ->
   (forall pdrid p s, P s -> P (push pdrid p s)) ->
+  (forall n s, P s -> P (set_node n s)) ->
   forall w ev w' o, WP P w -> step w ev = Ok (w', o) -> WP P w'.
 Proof. exact step_sess_inv. Qed.
 Print Assumptions C13_step_sess_inv.
